@@ -486,6 +486,28 @@ def zoo(tier='quick'):
     imports(p, 'AA', 'BB')
     imports(p, 'BB', 'AA')
     Z.append(p)
+    # a household of another country of the zone buys on this country's goods market (demand variable DEM_<country>_<code>)
+    p = Plan('samezone_crossdemand')
+    economy(p, 'AA', 'XXD', free_xr=False)
+    economy(p, 'BB', 'XXD', gov='none', free_xr=False)
+    p.decl('BB.TOURIST', lambda c: sd.Household(c['BB'], 'TOURIST', alpha_income=0.5, alpha_fin=0.1,
+                                                consumption_good_name='AA_GOOD', labour_name='IDLE'), group='BB')
+    p.params += [('BB.TOURIST', 'AlphaIncome'), ('BB.TOURIST', 'AlphaFin')]
+    Z.append(p)
+    # three suppliers on one goods market with two allocation rules
+    p = Plan('three_suppliers')
+    economy(p, 'CA', None, firm='multi', free_xr=False)
+    p.decl('CA.BUS2', lambda c: sd.FixedMarginBusinessMultiOutput(c['CA'], 'BUS2', market_list=[c['CA.GOOD']]), needs=('CA.GOOD',), group='CA')
+    p.decl('CA.BUS3', lambda c: sd.FixedMarginBusinessMultiOutput(c['CA'], 'BUS3', profit_margin=0.1, market_list=[c['CA.GOOD']]), needs=('CA.GOOD',), group='CA')
+
+    def three_post(c):
+        mk = c['CA.GOOD']
+        mk.AddVariable('SHARE2', 'share of BUS2', '0.25')
+        mk.SetExogenous('SHARE2', '[0.25,]*%d' % EXO_LEN)
+        mk.AddSupplier(c['CA.BUS2'], 'SHARE2*DEM_GOOD')
+        mk.AddSupplier(c['CA.BUS3'], '0.1*{0}'.format(c['CA.HH'].GetVariableName('INC')))
+    p.post(three_post)
+    Z.append(p)
     p = Plan('reg')
     reg_onecountry(p, 'CA')
     Z.append(p)
